@@ -25,7 +25,11 @@ func genStrconvCode(repo string) (string, error) {
 		Dir:        "strz",
 		Funcs:      []string{"lower", "underscoreOK", "ParseUint", "fromHexChar", "hexEncode", "hexDecode", "HexEncode", "HexDecode"},
 		WrapSigned: true, // rune (int32) variables: `saw := '^'`, rune(src[j])
-		T15:        T15Spec{ByteSeq: true, Imports: []string{"typez"}, ErrKinds: strconvErrKinds, OutParams: true, StdHexLen: true},
+		T15: T15Spec{ByteSeq: true, Imports: []string{"typez"}, ErrKinds: strconvErrKinds, OutParams: true, StdHexLen: true,
+			// what Proofs/StrconvCode.v covers: one loop each, no table besides hextable (a fast-path loop or a reverse lookup
+			// table translates fine but is another algorithm: degrade, the differential run decides)
+			Loops:  map[string]int{"ParseUint": 1, "underscoreOK": 1, "hexEncode": 1, "hexDecode": 1, "lower": 0, "fromHexChar": 0, "HexEncode": 0, "HexDecode": 0},
+			Consts: []string{"hextable"}},
 	})
 	if err != nil {
 		return "", err
